@@ -528,7 +528,7 @@ def peer_connect_job(args: tuple[bool, bool, tuple[str, ...], bool]) -> dict[str
     return out
 
 
-PEER = {"PR": "PingRequest", "TR": "GetTimeRequest", "DR": "DisconnectRequest", "ST": "SensorStateResponse", "UK": None}
+PEER = {"PR": "PingRequest", "TR": "GetTimeRequest", "DR": "DisconnectRequest", "ST": "SensorStateResponse", "UK": None, "GB": None}
 ANSWER = {"PR": "PingResponse", "TR": "GetTimeResponse", "DR": "DisconnectResponse"}
 
 
@@ -568,7 +568,9 @@ def peer_job(args: tuple[Any, ...]) -> dict[str, Any]:
         _world.RECYCLE_RX[0] = False
     try:
         n0 = len(w.sent_frames())
-        frames = [raw_frame(w, 9999, b"q") if a == "UK" else w.dframe(mk(PEER[a])) for a in seq]  # type: ignore[arg-type]
+        # "GB": bytes that are no frame start (garbage behind well-formed frames): what stands in front of it is processed first
+        garbage = b"\x7f\x7f\x7f" if not noise else b"\x00\x00\x01x"
+        frames = [garbage if a == "GB" else raw_frame(w, 9999, b"q") if a == "UK" else w.dframe(mk(PEER[a])) for a in seq]  # type: ignore[arg-type]
         if recycle:
             blob = b"".join(frames)
             for i in range(0, len(blob), 3):
@@ -587,8 +589,12 @@ def peer_job(args: tuple[Any, ...]) -> dict[str, Any]:
                 w.drain()
         exp: list[str] = []
         closed = False
+        garbage_closed = False
         for a in seq:
             if closed:
+                break
+            if a == "GB":
+                closed = garbage_closed = True
                 break
             if a in ANSWER:
                 exp.append(ANSWER[a])
@@ -607,7 +613,11 @@ def peer_job(args: tuple[Any, ...]) -> dict[str, Any]:
                 m.ParseFromString(pl)
                 if m.epoch_seconds != FIXED_EPOCH:
                     out["viol"].append({"key": key + ":time", "clause": f"C12:peer:time response carries {m.epoch_seconds}, the clock reads {FIXED_EPOCH}", "noise": noise, "seq": list(seq), "one_chunk": one_chunk})
-        if closed:
+        if garbage_closed:
+            stops = [e for _, e, _ in w.stops]
+            if w.conn.connection_state.name != "CLOSED" or stops != [False]:
+                out["viol"].append({"key": key + ":close", "clause": f"C12:peer:after the garbage: state {w.conn.connection_state.name}, on_stop calls {stops}; expected CLOSED and [False]", "noise": noise, "seq": list(seq), "one_chunk": one_chunk})
+        elif closed:
             stops = [e for _, e, _ in w.stops]
             if w.conn.connection_state.name != "CLOSED" or stops != [True]:
                 out["viol"].append({"key": key + ":close", "clause": f"C12:peer:after the disconnect request: state {w.conn.connection_state.name}, on_stop calls {stops}; expected CLOSED and [True]", "noise": noise, "seq": list(seq), "one_chunk": one_chunk})
@@ -616,6 +626,8 @@ def peer_job(args: tuple[Any, ...]) -> dict[str, Any]:
         # traffic frames before the close are delivered once, in order
         exp_probe = []
         for a in seq:
+            if a == "GB":
+                break
             if a == "DR":
                 exp_probe.append("DisconnectRequest")
                 break
@@ -648,6 +660,7 @@ def run(tier: str, seed: int) -> Result:
     jobs_c: list[tuple[Any, ...]] = [(noise, s, oc) for noise in (False, True) for s in seqs for oc in (False, True)]
     jobs_c += [(noise, s, True, True) for noise in (False, True) for s in seqs if len(s) <= 2]
     jobs_c += [(noise, s, False, False, True) for noise in (False, True) for s in seqs if len(s) <= 2]
+    jobs_c += [(noise, s + ("GB",), oc) for noise in (False, True) for s in seqs if len(s) <= 2 and "DR" not in s for oc in (False, True)]
     jobs_c += [(noise, s, True, False, False, tz) for noise in (False, True) for s in seqs if len(s) <= 2 and "TR" in s for tz in ("XYZ5", "ABC-9:30")]
     jobs_b2 = [(3, p, 25) for p in range(25)]
     jobs_c2: list[tuple[bool, bool, tuple[str, ...], bool]] = []
